@@ -76,7 +76,21 @@ def make_xx(cfg):
     else:
         dims = ("band", "y", "x")
         chunks = (cfg.get("band_chunk", -1), cy, cx)
-    data = da.from_array(pix, chunks=chunks, name=f"src-{cfg.get('name', 'x')}-{random.random()}")
+    name = f"src-{cfg.get('name', 'x')}-{random.random()}"
+    mem = cfg.get("memory", "C")
+    if mem == "C":
+        data = da.from_array(pix, chunks=chunks, name=name)
+    elif mem == "F":                      # Fortran-ordered source array
+        data = da.from_array(np.asfortranarray(pix), chunks=chunks, name=name)
+    elif mem == "transposed":             # stored with reversed axes, lazily transposed back: every block is F-contiguous
+        rev = tuple(range(pix.ndim))[::-1]
+        data = da.from_array(np.ascontiguousarray(pix.transpose(rev)), chunks=tuple(chunks)[::-1], name=name).transpose(rev)
+    elif mem == "view":                   # non-contiguous view of a larger array
+        big = np.zeros(tuple(2 * n for n in pix.shape), dtype=pix.dtype)
+        big[(slice(None, None, 2),) * pix.ndim] = pix
+        data = da.from_array(big[(slice(None, None, 2),) * pix.ndim], chunks=chunks, name=name)
+    else:
+        raise ValueError(mem)
     coords = xr_coords(gbox)
     attrs = {}
     if cfg.get("nodata") is not None:
